@@ -44,6 +44,7 @@ import (
 	"sync/atomic"
 	"testing"
 	"time"
+	"verifharness/internal/fakes"
 
 	"pgregory.net/rapid"
 
@@ -439,7 +440,11 @@ func waitGoroutines(base int, limit time.Duration) bool {
 		if runtime.NumGoroutine() <= base {
 			ok++
 			if ok >= 3 {
-				return true
+				// confirm with a consistent (stop-the-world) count: NumGoroutine can be transiently too low
+				if fakes.GoroutineCount() <= base {
+					return true
+				}
+				ok = 0
 			}
 		} else {
 			ok = 0
